@@ -359,6 +359,45 @@ impl<'a> G<'a> {
         self.rx(src, dst, f);
     }
 
+    /// SELECT .. [retransmissions of it, time passing] .. OPERATE with the time budget placed around the select
+    /// timeout: measured from the ORIGINAL select (a retransmission must not extend it)
+    fn select_script(&mut self) {
+        let st = self.cfg_stimeout;
+        let seq = self.next_seq();
+        let mut sel = vec![ctrl(seq), 3];
+        let o = control_objects(&mut self.r, 3);
+        sel.extend(&o);
+        self.line("@wf");
+        self.last_note = Some("@wf".into());
+        self.rx(1, OUTSTATION, sel.clone());
+        self.last_select = Some((seq, o.clone()));
+        // total time between the select and the operate: below, at and above the timeout
+        let total = match self.r.below(6) {
+            0 => st.saturating_sub(1).max(2),
+            1 => st,
+            2 | 3 => st + 1,
+            4 => st + self.r.range(2, st),
+            _ => self.r.range(2, st.max(3)),
+        };
+        let reps = self.r.below(3);
+        let mut left = total;
+        for k in 0..reps {
+            // a retransmission of the select somewhere inside the window
+            let a = if k + 1 == reps { self.r.range(1, left.saturating_sub(1).max(1)) } else { self.r.range(1, (left / 2).max(1)) };
+            let a = a.min(left.saturating_sub(1)).max(1);
+            self.line(&format!("tick {a}"));
+            left = left.saturating_sub(a).max(1);
+            self.line("@wf");
+            self.line(&format!("rx 1 {} {}", OUTSTATION, hex(&sel)));
+        }
+        self.line(&format!("tick {left}"));
+        let mut op = vec![ctrl(seq.wrapping_add(1) & 0x0F), 4];
+        op.extend(&o);
+        self.seq = seq.wrapping_add(2) & 0x0F;
+        self.rx(1, OUTSTATION, op);
+        self.last_note = None;
+    }
+
     fn repeat_last(&mut self) {
         if let Some((src, dst, f)) = self.last.clone() {
             let n = if self.r.chance(4, 5) { 1 } else { 2 };
@@ -554,7 +593,10 @@ pub fn gen(thorough: bool, seed: u64, w: &mut dyn Write, gc: GenCfg) {
                 85..=94 => {
                     if many_events && g.r.chance(1, 3) { g.burst() } else if g.gc.with_db { g.txn() } else { g.request() }
                 }
-                95..=96 => g.line("cut"),
+                95 => g.line("cut"),
+                96 => {
+                    if g.gc.with_db { g.line("cut") } else { g.select_script() }
+                }
                 97 => {
                     let b = g.r.below(16);
                     g.line(&format!("appiin {b}"));
